@@ -557,6 +557,20 @@ def check(ctx: Ctx):
     from . import c01
 
     c03._guarded(ctx, "R01.2", c01.check_pipeline)
+    # "every per-instance list has exactly tp entries" needs every matched instance to survive the
+    # crops (R10.2, R10.3) and the caller's arrays not to change between groups / calls (R15.1)
+    from . import c10, c15
+
+    c03._guarded(ctx, "R10.2", c10.check_bbox)
+    c03._guarded(ctx, "R10.3", c10.check_crop_mask)
+    c03._guarded(ctx, "R15.1", c15.check_no_input_mutation)
+    c03._guarded(ctx, "R03.3", c03.check_beats)
+    # results of later evaluations (another group, a flipped copy, the exchanged pair, a second
+    # threshold) are only meaningful if no step writes into the caller's arrays (R15.8)
+    from . import c15 as _c15
+    from . import c03 as _c03
+
+    _c03._guarded(ctx, "R15.8", _c15.check_param_aliasing)
 
 
 _I = "panoptica/instance_evaluator.py"
